@@ -11,6 +11,7 @@ from glotaran.parameter import Parameters
 from glotaran.parameter.parameter import OPTION_NAMES_DESERIALIZED
 from glotaran.utils.io import safe_dataframe_fillna
 from glotaran.utils.io import safe_dataframe_replace
+from glotaran.utils.io import text_column_dtypes
 
 
 @register_project_io(["csv"])
@@ -31,7 +32,14 @@ class CsvProjectIo(ProjectIoInterface):
         -------
             :class:`Parameters
         """
-        df = pd.read_csv(file_name, skipinitialspace=True, na_values=["None", "none"], sep=sep)
+        column_names = pd.read_csv(file_name, skipinitialspace=True, sep=sep, nrows=0).columns
+        df = pd.read_csv(
+            file_name,
+            skipinitialspace=True,
+            na_values=["None", "none"],
+            sep=sep,
+            dtype=text_column_dtypes(column_names),
+        )
         df.columns = [column.lower() for column in df.columns]
         df = df.rename(columns=OPTION_NAMES_DESERIALIZED)
         safe_dataframe_fillna(df, "minimum", -np.inf)
